@@ -4,7 +4,7 @@ from txcommon import *
 class C13(TxCheck):
     ID = "C13"
     MODE = "c13"
-    LEVEL = "exploration"   # until the per-event preservation lemmas are all closed (coq/Tx/PROOFS.md)
+    LEVEL = "proof"
     N_QUICK = 50
     N_THOROUGH = 1500
     KINDS = ["tx_details_differ_from_ledger", "unconfirmed_set_differs_from_ledger", "store_error"]
